@@ -513,7 +513,7 @@ func c27driver(ctx *verifhlib.Ctx) {
 	if ctx.Tier == "thorough" {
 		// every word of length <= 5 over a small alphabet (validates the model; not the proof)
 		a, b := c27p(0, 0, 100, false), c27p(1, 1, 101, true)
-		alpha := []c27op{c27ann(0, a), c27ann(0, b), c27tick(1), c27tick(2), c27ce(nil), c27ce(map[int]*c27mid{0: {0, a, 2}}), c27cg()}
+		alpha := []c27op{c27ann(0, a), c27ann(0, b), c27tick(1), c27ce(nil), c27ce(map[int]*c27mid{0: {0, a, 2}}), c27cg()}
 		var rec func(prefix []c27op, depth int)
 		rec = func(prefix []c27op, depth int) {
 			if len(prefix) > 0 {
